@@ -95,7 +95,7 @@ def _status_value(ident, src, rel):
 DEFAULTS = {"exempt": [("Upgrade", "websocket"), ("Accept", "text/event-stream")],
             "sse_headers": [("Content-Type", "text/event-stream"), ("Cache-Control", "no-cache"),
                             ("Connection", "keep-alive")],
-            "recover_code": 500}
+            "recover_reply": [["wh", 500]], "recover_code": 500}
 
 LAST = None          # the constants of the last successful extract() (generation / rendering use them)
 
@@ -256,9 +256,11 @@ def _syn_recover(c):
     r = _read(rel)
     body = _func_body(r, r"func RecoverHandler\(", rel)
     m = re.search(r"recover\(\).*?\.WriteHeader\(([\w.]+)\)", body, re.S)
-    if not m:
-        _fail("the status the RecoverHandler answers with", rel)
-    c["recover_code"] = _status_value(m.group(1), r, rel)
+    # today's shape: the reply is ONE WriteHeader and nothing else touches the writer
+    if not m or len(re.findall(r"\.WriteHeader\(", body)) != 1 or re.search(r"\.Write\(|http\.Error|Header\(\)|Fprint|WriteString", body):
+        _fail("the RecoverHandler's reply as a single WriteHeader(status)", rel)
+    c["recover_reply"] = [["wh", _status_value(m.group(1), r, rel)]]
+    c["recover_code"] = c["recover_reply"][0][1]
 
 
 # group name -> (syntactic extractor, the items it establishes)
@@ -272,7 +274,7 @@ GROUPS = [
     ("flush_shape", _syn_flush_shape, ["flush_checks_timedout", "flush_sends_status", "write_checks_timedout"]),
     ("engine", _syn_engine, ["conf_unit_ns", "conf_unit_ns_engine", "read_num", "read_den", "write_num", "write_den"]),
     ("sse", _syn_sse, ["sse_headers"]),
-    ("recover", _syn_recover, ["recover_code"]),
+    ("recover", _syn_recover, ["recover_reply", "recover_code"]),
 ]
 ITEMS = [k for _g, _f, ks in GROUPS for k in ks]
 HOW = {}             # item -> "source" | "experiment" (of the last extract)
@@ -314,6 +316,11 @@ def extract(probe=None):
     return c
 
 
+def reply_names(reply):
+    """header names the RecoverHandler's reply touches, in the order of their model keys 800+i"""
+    return sorted(set(op[1] for op in reply if op[0] in ("del", "set")))
+
+
 def _bytes(s):
     return "[" + "; ".join(str(b) for b in s.encode()) + "]"
 
@@ -333,8 +340,7 @@ def regen(probe=None):
                          ("code_min", "code_min"), ("code_max", "code_max"),
                          ("conf_unit_ns", "conf_unit_ns"), ("conf_unit_ns_engine", "conf_unit_ns_engine"),
                          ("read_num", "read_num"), ("read_den", "read_den"),
-                         ("write_num", "write_num"), ("write_den", "write_den"),
-                         ("recover_status", "recover_code")):
+                         ("write_num", "write_num"), ("write_den", "write_den")):
         body.append("Definition %s : Z := %d." % (coqname, c[key]))
     body.append("Definition reason_text : list Z := %s.  (* %s *)" % (_bytes(c["reason"]), c["reason"]))
     body.append("Definition exempt_headers : list (list Z * list Z) := [%s].  (* %s *)" % (
@@ -343,6 +349,20 @@ def regen(probe=None):
     body.append("Definition sse_route_headers : list (list Z * list Z) := [%s].  (* %s *)" % (
         "; ".join("(%s, %s)" % (_bytes(k), _bytes(v)) for k, v in c["sse_headers"]),
         ", ".join("%s: %s" % kv for kv in c["sse_headers"])))
+    # the RecoverHandler's reply, as data (Recover.decode_reply turns it into handler actions):
+    # (0, key, 0, []) = Header().Del   (1, key, value, []) = Header().Set   (2, code, 0, []) = WriteHeader   (3, 0, 0, bytes) = Write
+    names = reply_names(c["recover_reply"])
+    ops = []
+    for op in c["recover_reply"]:
+        if op[0] == "del":
+            ops.append("(0, %d, 0, [])" % (800 + names.index(op[1])))
+        elif op[0] == "set":
+            ops.append("(1, %d, %d, [])" % (800 + names.index(op[1]), 850 + names.index(op[1])))
+        elif op[0] == "wh":
+            ops.append("(2, %d, 0, [])" % op[1])
+        else:
+            ops.append("(3, 0, 0, [%s])" % "; ".join(str(b) for b in op[1]))
+    body.append("Definition recover_reply_ops : list (Z * Z * Z * list Z) := [%s].  (* %s *)" % ("; ".join(ops), c["recover_reply"]))
     for key in ("flush_locks", "flush_checks_timedout", "flush_sends_status", "done_skips_status_when_flushed",
                 "write_checks_timedout"):
         body.append("Definition %s : bool := %s." % (key, _b(c[key])))
